@@ -85,7 +85,10 @@ pub fn gen_values(r: &Run) -> Vec<f64> {
             }
         }
         Shape::Dups(m) => {
-            let vals: Vec<f64> = (0..*m).map(|_| (sm.unit() * 16.0).floor() / 16.0).collect();
+            // odd m: dyadic values k/16; even m: arbitrary (non-dyadic) values such as 0.1 - averages of equal
+            // non-dyadic values need not be representable exactly
+            let dyadic = m % 2 == 1;
+            let vals: Vec<f64> = (0..*m).map(|_| if dyadic { (sm.unit() * 16.0).floor() / 16.0 } else { (sm.unit() * 1000.0).floor() / 1000.0 + 0.1 }).collect();
             for _ in 0..n {
                 out.push(vals[sm.below(*m as u64) as usize]);
             }
@@ -596,6 +599,16 @@ pub fn run_image(c: &ImageCase, info: &mut CaseInfo) -> Result<(), Fail> {
     }
     let known2 = Known { total: total + more, min: im.min, max: im.max };
     battery(&mut td, &known2, 60, c.qseed ^ 1, &format!("{what}, then {more} updates inside [min, max]"))?;
+    {
+        // merged INTO another digest, the image's own extremes count (not only its centroid means)
+        let mut x = TDigestMut::new(c.k);
+        let mid = im.min / 2.0 + im.max / 2.0;
+        x.update(mid);
+        let fresh = TDigestMut::deserialize(&bytes, enc == spec::Enc::Float).map_err(|e| Fail { clause: "C10.valid_image_rejected".into(), detail: format!("{e}") })?;
+        x.merge(&fresh);
+        let known4 = Known { total: total + 1, min: im.min, max: im.max };
+        battery(&mut x, &known4, 40, c.qseed ^ 3, &format!("{what}, merged into a digest holding one value inside [min, max]"))?;
+    }
     if total + more < (1 << 40) {
         let mut other = TDigestMut::deserialize(&bytes, enc == spec::Enc::Float).map_err(|e| Fail { clause: "C10.valid_image_rejected".into(), detail: format!("{e}") })?;
         other.merge(&td);
